@@ -2,6 +2,7 @@
     Quantifies over all five libraries as regenerated from techlib.py on every run (about 1000 names). *)
 From Coq Require Import List NArith Bool Arith String.
 From KV Require Import Model.Prims Model.TechCell Model.TechlibSpec Gen.TechLibs Proofs.C19Proofs.
+From KV Require Import Model.BenchText Model.TechLibText Gen.TechLibTexts Proofs.TechLibTextProofs.
 Import ListNotations.
 
 Theorem C19_pins_once : forall lib cells c, In (lib, cells) all_libs -> In c cells ->
@@ -20,3 +21,44 @@ Theorem C19_cell_function : forall lib cells c, In (lib, cells) all_libs -> In c
     forall row, List.length row = List.length (t_ins c) -> forall o, In o (t_outs c) ->
       exists v, eval_out c row o = Some v /\ family_fn lib f row o (List.length (t_outs c)) = Some v.
 Proof. exact cell_function. Qed.
+
+(** *** from the library TEXT.  Gen/TechLibTexts.v holds the five argument strings of TechLib(...) verbatim;
+    tcells_of_text (Model/TechLibText.v) transcribes TechLib.__init__: re.split(r';\s+'), name = text up to the first space,
+    bench.parse of the rest (Model/BenchText.v), pins from io_nodes, brace products. *)
+
+(* the libraries the theorems above quantify over (emitted by the translator's own Python text processing) ARE what the
+   transcription computes from the library texts *)
+Theorem C19_text_matches_translation :
+  map fst all_texts = map fst all_libs /\
+  forall lib text, In (lib, text) all_texts -> exists cells, In (lib, cells) all_libs /\ tcells_of_text text = Some cells.
+Proof. exact text_matches_translation. Qed.
+
+(* {a,b} alternatives: the names of a pattern are the joined tuples of itertools.product over its parts ... *)
+Theorem C19_expand_names_product : forall pat,
+  expand_names pat = map sconcat (product (name_parts pat)) /\
+  List.length (expand_names pat) = fold_right Nat.mul 1 (map (@List.length string) (name_parts pat)) /\
+  (forall name, In name (expand_names pat) <->
+     exists t, Forall2 (fun x p => In x p) t (name_parts pat) /\ name = sconcat t).
+Proof. exact expand_names_product. Qed.
+(* ... in itertools.product order: the rightmost part varies fastest *)
+Theorem C19_expand_names_order : forall pat p ps i j x t, name_parts pat = p :: ps ->
+  nth_error p i = Some x -> nth_error (product ps) j = Some t ->
+  nth_error (expand_names pat) (i * List.length (product ps) + j) = Some (x ++ sconcat t)%string.
+Proof. exact expand_names_order. Qed.
+(* pairwise distinct names <-> pairwise distinct alternatives: "->" always, the tuples always, "<-" when joining is injective *)
+Theorem C19_names_distinct_alternatives : forall pat,
+  NoDup (expand_names pat) -> Forall (@NoDup string) (name_parts pat).
+Proof. exact names_distinct_alternatives. Qed.
+Theorem C19_tuples_distinct_iff : forall pat,
+  NoDup (product (name_parts pat)) <-> Forall (@NoDup string) (name_parts pat).
+Proof. exact tuples_distinct_iff. Qed.
+Theorem C19_alternatives_distinct_names : forall pat, decodable (name_parts pat) ->
+  (NoDup (expand_names pat) <-> Forall (@NoDup string) (name_parts pat)).
+Proof. exact alternatives_distinct_names. Qed.
+Theorem C19_alternatives_distinct_names_prefix_free : forall pat, prefix_free_but_last (name_parts pat) ->
+  (NoDup (expand_names pat) <-> Forall (@NoDup string) (name_parts pat)).
+Proof. exact alternatives_distinct_names_prefix_free. Qed.
+(* without injectivity of joining the "<-" direction fails *)
+Theorem C19_names_collision_witness :
+  Forall (@NoDup string) (name_parts "{a,ab}{bc,c}"%string) /\ ~ NoDup (expand_names "{a,ab}{bc,c}"%string).
+Proof. exact names_collision_witness. Qed.
